@@ -233,6 +233,27 @@ def _recognise(toks):
     return expr() and pos[0] == len(toks)
 
 
+CALLTOK = ['ff(', 'aa', ',', ')', '1', '(']
+
+
+def core_callsoup(t1, t2, t3, t4, n):
+    # call punctuation needs four or five tokens to go wrong (trailing / doubled / leading commas, unbalanced parentheses)
+    toks = ['ff('] + [_pick(CALLTOK, t) for t in (t1, t2, t3, t4)]
+    toks = toks[:n + 1]
+    text = ' '.join(toks)
+    want = _recognise(toks)
+    try:
+        parse_expression(text)
+        got = True
+    except BareScriptParserError:
+        got = False
+    except Exception as exc:
+        return False, {{'clause': 'exception other than BareScriptParserError', 'text': text, 'exception': type(exc).__name__}}
+    if got != want:
+        return False, {{'clause': 'accepted although malformed' if got else 'rejected although well-formed', 'text': text, 'tokens': toks}}
+    return True, {{}}
+
+
 def core_soup(t2, t3, n):
     toks = [TOKENS[FIRST], _pick(TOKENS, t2), _pick(TOKENS, t3)]
     toks = toks if n == 3 else (toks[:2] if n == 2 else toks[:1])
@@ -285,6 +306,12 @@ def plan(tier, seed, workdir):
         body += hgen.harness('soup', 't2: int, t3: int, n: int', ['0 <= t2 < 17', '0 <= t3 < 17', '1 <= n <= 3'], core_call='core_soup(t2, t3, n)')
         path = hgen.write_module(workdir, f'c02_soup_{first:02d}', body, stub=False)
         hgen.ch_tasks(p, path, 'soup', timeout, twin_timeout=60, est=30, family='E1 token soup accept/reject', first_token=first)
+    body = CORE.format(first=0, k=1)
+    body += hgen.harness('callsoup', 't1: int, t2: int, t3: int, t4: int, n: int', ['0 <= t1 < 6', '0 <= t2 < 6', '0 <= t3 < 6', '0 <= t4 < 6', '1 <= n <= 4'],
+                         core_call='core_callsoup(t1, t2, t3, t4, n)')
+    path = hgen.write_module(workdir, 'c02_callsoup', body, stub=False)
+    hgen.ch_tasks(p, path, 'callsoup', timeout * 2, twin_timeout=60, est=120, family='E1 call punctuation soup (<= 5 tokens)',
+                  enum={'t1': list(range(6)), 't2': list(range(6)), 't3': list(range(6)), 't4': list(range(6)), 'n': [1, 2, 3, 4]})
     p.rule = ('1 z3 lemma over the live precedence table (196 pairs, symbolic operators); CrossHair conditions sharded by first operator / first '
               'token: all operator chains up to k, one operand of each chain replaced by each of 8 forms at each position, with and without blanks')
     p.bounds = [f'operator chains k <= {kmax} exhaustively (14^k) with operand forms; four-operator chains over identifiers: all 14^4 (thorough) / 5 of 14 first-operator shards (quick, seeded)', 'operand forms: identifier, number, group, unary -, unary !, stacked unaries (!-x, -!x, - -x, !(-x)), call (also with unary arguments), string, bracketed name',
